@@ -561,8 +561,111 @@ def check_c16(run):
     }
     return H.finish(run, cov, "proof", assumptions=[cov["partial"]])
 
+HT = lambda f: f.text
+LEAKY = ("double drop", "leak", "never dropped", "blocks still allocated", "wrong layout", "unknown block", "already been dropped", "double drops")
+MEMORY = ("red zone", "invalid layout", "unknown block", "wrong layout", "MISALIGNED", "SLOT_OUT_OF_BLOCK", "already been dropped", "two mutable references", "assertion")
+
+def gen_fault_scripts(tier, seed, variant):
+    rng = random.Random(seed)
+    n = 48 if tier == "quick" else 160
+    out = []
+    for i in range(n):
+        out.append(gen_map.make_script(rng, f"f{seed}_{i}", faults=rng.choice([0.15, 0.3, 0.5]), clone_ops=(i % 3 == 0)))
+    return "".join(out)
+
+def gen_calldep_scripts(tier, seed, variant):
+    rng = random.Random(seed)
+    n = 40 if tier == "quick" else 140
+    out = []
+    for i in range(n):
+        if i % 4 == 3:
+            blk = gen_table.make_script(rng, f"x{seed}_{i}")
+            lines = blk.split("\n")
+            k = next(j for j, l in enumerate(lines) if not (l.startswith("===") or l.startswith("kind") or l.startswith("hash")))
+            lines.insert(k, rng.choice(["hashrule calldep", "eqrule calldep", "hashrule calldep\neqrule calldep"]))
+            out.append("\n".join(lines))
+        else:
+            out.append(gen_map.make_script(rng, f"x{seed}_{i}", calldep=rng.choice(["hash", "eq", "both"])))
+    return "".join(out)
+
+def gen_table_scripts(tier, seed, variant):
+    rng = random.Random(seed)
+    n = 48 if tier == "quick" else 160
+    return "".join(gen_table.make_script(rng, f"t{seed}_{i}") for i in range(n))
+
+def gen_layout_scripts(tier, seed, variant):
+    """C02: every element layout (sizes 0,1,2,24,32,200; alignment up to 64), maps and tables,
+    lawful and inconsistent hashers"""
+    rng = random.Random(seed)
+    n = 56 if tier == "quick" else 180
+    out = []
+    kinds = ["table-1", "table-2", "table-zst", "table-200", "table-a64", "table-drop", "table-plain"]
+    for i in range(n):
+        r = i % 4
+        if r == 0:
+            out.append(gen_map.make_script(rng, f"y{seed}_{i}"))
+        elif r == 1:
+            out.append(gen_map.make_script(rng, f"y{seed}_{i}", calldep=rng.choice(["hash", "both"])))
+        else:
+            out.append(gen_table.make_script(rng, f"y{seed}_{i}", kind=rng.choice(kinds)))
+    return "".join(out)
+
+def gen_clone_scripts(tier, seed, variant):
+    rng = random.Random(seed)
+    n = 48 if tier == "quick" else 160
+    return "".join(gen_map.make_script(rng, f"c{seed}_{i}", clone_ops=True, kind=rng.choice(["map-drop", "map-drop", "map-plain"])) for i in range(n))
+
+def check_c02(run):
+    return script_property(
+        run, gen_layout_scripts,
+        relevant=lambda f: f.kind == "CRASH" or (f.kind == "B-FAIL" and "SafeWF" in f.text) or (f.kind in ("H-FAIL", "A-FAIL") and any(k in f.text for k in MEMORY)),
+        rule="safe-API histories over HashMap (two element flavours) and HashTable with element sizes 0, 1, 2, 24, 32, 200 and alignment up to 64 (> group width), lawful and call-dependent hashers, all hash-plan classes; the harness allocator puts red zones around every block and poisons fresh / freed memory, checks the layout of every request and release, the alignment of the control bytes and of every element slot and that every slot lies inside the block; every dumped state must satisfy SafeWF (counters = number of FULL bytes, mirror bytes, at least one EMPTY byte ...) via the extracted wf_check; debug assertions of the library are enabled (debug profile) and count as findings",
+        partial_note="Coq cannot exhibit undefined behaviour of compiled Rust (aliasing/provenance, validity of reads, the intrinsics); what is proved is the index / initialisation / ownership discipline: the model's checked primitives never fire (map_step_safe) and SafeWF is preserved for every operation and every hasher")
+
+def check_c03(run):
+    return script_property(
+        run, lambda tier, seed, v: gen_map_scripts(tier, seed, v) + gen_table_scripts(tier, seed + 1, v) + gen_clone_scripts(tier, seed + 2, v),
+        relevant=lambda f: f.kind == "CRASH" or (f.kind == "H-FAIL" and any(k in f.text for k in LEAKY)),
+        rule="HashMap / HashTable / clone-family histories with drop-tracked elements (every key and value object carries a serial number in a registry) and the ledger allocator: after EVERY operation each object ever created must be stored in a collection, held by the caller, or dropped exactly once; a second drop of a serial, a stored object that was already dropped, a release with a different layout than the request, and anything still alive or allocated after the collections are dropped are findings; leaving routes exercised: remove, overwrite, clear, retain, extract_if, drain (0, some, all consumed), shrink, clone_from into occupied targets, drop; allocator events are also compared in order with the extracted model")
+
+def check_c04(run):
+    return script_property(
+        run, gen_fault_scripts,
+        relevant=lambda f: f.kind in ("CRASH", "A-FAIL", "B-FAIL", "H-FAIL"),
+        rule="HashMap histories in which a fraction (15-50%) of the operations is preceded by a fault arming: the k-th Hash call (k in 0..13) or the hashing of a chosen key panics, the k-th Eq call, the k-th destructor, the k-th Clone, the k-th retain/extract_if predicate call panics, or the allocator refuses a fallible request; drop and no-drop element types, clone / clone_from / == in a third of the scripts; after catch_unwind the dumped state must satisfy the full invariant (wf_check: len = number of FULL buckets, every stored element reachable by lookup), its contents must be explainable from the pre-state and the operation's arguments, and the registry must show no double drop and no leak unless the panic came out of a destructor; corpus: the replays of the two defects found and fixed (F1, F3)",
+        nontrivial_keys=("unwind",))
+
+def check_c05(run):
+    return script_property(
+        run, gen_calldep_scripts,
+        relevant=lambda f: f.kind == "CRASH" or (f.kind == "B-FAIL" and "SafeWF" in f.text) or (f.kind == "H-FAIL") or (f.kind == "A-FAIL" and "len()=" in f.text),
+        levels="B",
+        rule="HashMap and HashTable histories under inconsistent Hash (a fresh pseudo-random hash on every call), inconsistent Eq (a pseudo-random answer on every call), or both: every operation must return (harness timeout = non-termination finding), every dumped state must satisfy SafeWF (in particular len() = number of stored elements), the registry must show every element dropped exactly once, the allocator ledger must balance; lookup results are not judged")
+
+def check_c06(run):
+    return script_property(
+        run, gen_table_scripts,
+        relevant=lambda f: f.kind in ("A-FAIL", "CRASH") or (f.kind == "B-FAIL" and "Tags/Reach" in f.text),
+        rule="HashTable histories with caller-supplied hashes (8 hash-plan classes incl. all-colliding; duplicates of identical ids; value-class predicates that match several entries; remove + re-insert through the returned VacantEntry; get_many_mut with colliding requests; iter_hash): every step bit-exact against the extracted model (C), the multiset acceptor MultisetSpec (A: an element inserted with hash h and matching the closure must be found; only live elements returned; iter_hash complete and duplicate free; len = multiset cardinality) and wf_check (B)",
+        nontrivial_keys=("remove_reinsert", "get_many_mut_2plus", "iter_hash", "tombstones_present"))
+
+def check_c10(run):
+    ops = ("retain", "extractif", "drain", "tretain", "textractif", "tdrain")
+    return script_property(
+        run, lambda tier, seed, v: gen_iter_scripts(tier, seed, v),
+        relevant=lambda f: f.kind == "CRASH" or (f.kind in ("A-FAIL", "H-FAIL", "B-FAIL") and (op_in(f, ops) or "retain called" in f.text)),
+        rule="HashMap / HashSet / HashTable histories rich in retain (random keep sets incl. none and all, values bumped through &mut), extract_if (random selections, dropped after 0, 1, some, all results) and drain (consumed 0, 1, some, all); the harness counts predicate calls (exactly one per element); survivors, yielded elements and the emptied-but-allocated table are compared with the extracted model bit for bit and with the reference map/multiset")
+
+def check_c11(run):
+    return script_property(
+        run, gen_clone_scripts,
+        relevant=lambda f: f.kind == "CRASH" or (f.kind in ("A-FAIL", "H-FAIL", "B-FAIL", "C-MISMATCH") and False) or (f.kind in ("A-FAIL", "H-FAIL", "B-FAIL") and (op_in(f, ("o_",)) or any(k in f.text for k in ("clone", "symmetric", "shares an element")))),
+        rule="HashMap histories with a second map: clone(), clone_from into targets in every state (unallocated, smaller, equal, larger bucket count, with tombstones), swap, ==; the clone must hold equal elements with fresh serial numbers (no object shared), later operations on one map must leave the other's dump unchanged (checked after every step), clone_from must drop every old target element exactly once and free the old block iff the bucket counts differ (events compared with the extracted model), == must equal the mathematical comparison of the abstract contents and be symmetric; differently seeded hashers via a salted BuildHasher",
+        nontrivial_keys=("clone_family_same_buckets", "clone_family_target_smaller", "clone_family_target_larger"))
+
 PROPS = {
     "C17": check_c17,
+    "C02": check_c02, "C03": check_c03, "C04": check_c04, "C05": check_c05, "C06": check_c06, "C10": check_c10, "C11": check_c11,
     "C16": check_c16,
     "C09": check_c09,
     "C20": check_c20,
